@@ -303,7 +303,7 @@ func runC10(ctx *core.Ctx) {
 		}
 		return gen.Serialize(r, []*gen.Node{nd}, r.Intn(2)), true
 	}
-	nPol, nIn := ctx.N(5000, 30000), ctx.N(200, 500)
+	nPol, nIn := ctx.N(5000, 80000), ctx.N(200, 500)
 	ctx.Run("style-policies", nPol, func(cs *core.Case) {
 		env := NewEnv(c10Policy(cs))
 		lc := core.LocalCounts{}
